@@ -90,10 +90,12 @@ def exercise(ctx):
                 k = draw(st.integers(0, 4))
                 outcome = draw(st.sampled_from(["response", "response", "response", "error"]))
                 code = draw(st.sampled_from(sorted(CODES)))
-                payload = draw(values.message(rdesc, classes, max_depth=2)) if rdesc is not None else None
-                meta = draw(values.message(mdesc, classes, max_depth=2)) if mdesc is not None else None
                 kinds = ["sync", "async"] + (["rest", "rest"] if rest_ok(m) else []) + (["arest", "arest"] if rest_ok(m) and ctx.options.get("async_rest") else [])
                 kind = draw(st.sampled_from(kinds))
+                # over REST the scripted Operation travels as JSON: values that JSON cannot carry unchanged (an unset Value ...) are not drawn
+                js = kind in ("rest", "arest")
+                payload = draw(values.message(rdesc, classes, max_depth=2, json_safe=js)) if rdesc is not None else None
+                meta = draw(values.message(mdesc, classes, max_depth=2, json_safe=js)) if mdesc is not None else None
                 req = draw(values.message(in_desc, classes, max_depth=1, json_safe=kind in ("rest", "arest")))
                 if kind in ("rest", "arest"):
                     rules = ctx.inner.get("lro_get_rules") or []
@@ -241,12 +243,14 @@ def exercise(ctx):
                 if not isinstance(result, rcls):
                     raise Fail("result-type", f"{path_} ({kind}): result() is {type(result).__module__}.{type(result).__name__}, operation_info names {rdesc.full_name} -> {rcls.__module__}.{rcls.__name__}", detail)
                 if classes(rdesc).FromString(to_bytes(result)) != payload:
-                    raise Fail("result-payload", f"{path_} ({kind}): result() differs from the packed response", detail)
+                    raise Fail("result-payload", f"{path_} ({kind}): result() differs from the packed response",
+                               dict(detail, got=str(classes(rdesc).FromString(to_bytes(result)))[:400], want=str(payload)[:400]))
                 mcls, _ = python_class(ctx, mdesc.full_name)
                 if md is None or not isinstance(md, mcls):
                     raise Fail("metadata-type", f"{path_} ({kind}): metadata is {type(md).__module__}.{type(md).__name__}, operation_info names {mdesc.full_name}", detail)
                 if classes(mdesc).FromString(to_bytes(md)) != meta:
-                    raise Fail("metadata-payload", f"{path_} ({kind}): metadata differs from the packed metadata", detail)
+                    raise Fail("metadata-payload", f"{path_} ({kind}): metadata differs from the packed metadata",
+                               dict(detail, got=str(classes(mdesc).FromString(to_bytes(md)))[:400], want=str(meta)[:400]))
 
             forall(ctx, scenario(), one, n, label=m["name"], shrink=False)
             ctx.count("methods_exercised")
